@@ -927,6 +927,133 @@ def run_boundary(case, ctx):
                  f"(nodes={ts.num_nodes} edges={ts.num_edges} sites={ts.num_sites} mutations={ts.num_mutations})")
 
 
+# ------------------------------------------------------------------ size regimes no generated program reaches
+BIG_TABLES = ("nodes", "edges", "sites", "mutations", "migrations", "individuals", "populations", "provenances")
+
+
+def enum_big(tier, seed):
+    counts = [32766, 32767, 32768, 40000, 65535, 65536, 70000]
+    for n in (counts if tier != "quick" else [32767, 32768, 40000, 65536]):
+        for op in ("gnn", "mean_descendants", "sample_count_stat"):
+            yield dict(op=op, nsets=n)
+    rows = 2_200_000
+    for tb in (BIG_TABLES if tier != "quick" else ("nodes", "edges", "mutations", "individuals")):
+        for how in (("set", "append", "set_copy", "set_extend") if tier != "quick" else ("set_append", "copy_extend")):
+            yield dict(op="grow", table=tb, rows=rows, how=how)
+
+
+def _big_columns(np, name, n):
+    z32 = np.zeros(n, dtype=np.int32)
+    off = np.arange(n + 1, dtype=np.uint64)
+    ch = np.full(n, 65, dtype=np.int8)
+    ar = np.arange(n, dtype=np.float64)
+    if name == "nodes":
+        return dict(flags=np.ones(n, dtype=np.uint32), time=ar, population=z32 - 1, individual=z32 - 1)
+    if name == "edges":
+        return dict(left=np.zeros(n), right=np.ones(n), parent=z32 + 1, child=z32)
+    if name == "sites":
+        return dict(position=ar, ancestral_state=ch, ancestral_state_offset=off)
+    if name == "mutations":
+        return dict(site=z32, node=z32, derived_state=ch, derived_state_offset=off, parent=z32 - 1, time=ar)
+    if name == "migrations":
+        return dict(left=np.zeros(n), right=np.ones(n), node=z32, source=z32, dest=z32 + 1, time=ar)
+    if name == "individuals":
+        return dict(flags=np.arange(n, dtype=np.uint32), location=ar, location_offset=off)
+    if name == "populations":
+        return dict(metadata=ch, metadata_offset=off)
+    return dict(timestamp=ch, timestamp_offset=off, record=ch, record_offset=off)
+
+
+def run_big(case, ctx):
+    """More than 2^15 / 2^16 reference or sample sets in one call; one call that grows a table by more than 2^21
+    rows.  Oracle: a clean exception or the right answer (by comparison with the same call on the non-empty sets /
+    the columns read back), under ASan."""
+    import numpy as np
+    import tskit
+
+    ctx.nt(True)
+    ctx.label(case["op"])
+    if case["op"] == "grow":
+        n, name = case["rows"], case["table"]
+        cols = _big_columns(np, name, n)
+        tc = tskit.TableCollection(1.0)
+        tb = getattr(tc, name)
+        steps = case["how"].split("_")
+
+        def same(table, reps):
+            ctx.check(table.num_rows == reps * n, "grow.num_rows", f"{name}: {table.num_rows} rows, expected {reps * n}")
+            for k, v in cols.items():
+                got = getattr(table, k)
+                if k.endswith("_offset"):
+                    ctx.check(len(got) == reps * n + 1 and int(got[-1]) == reps * n and int(got[n]) == n
+                              and bool((np.diff(got.astype(np.int64)) == 1).all()), "grow.offsets", f"{name}.{k}")
+                else:
+                    for r in range(reps):
+                        ctx.check(np.array_equal(got[r * n:(r + 1) * n], v), "grow.column", f"{name}.{k} block {r}")
+
+        reps = 0
+        if "set" in steps or "copy" in steps or "extend" in steps:
+            tb.set_columns(**cols)
+            reps = 1
+            same(tb, 1)
+        if "append" in steps:
+            tb.append_columns(**cols)
+            reps += 1
+            same(tb, reps)
+        if "copy" in steps:
+            t2 = tc.copy()
+            same(getattr(t2, name), reps)
+            del t2
+        if "extend" in steps:
+            t3 = tskit.TableCollection(1.0)
+            getattr(t3, name).replace_with(tb)
+            same(getattr(t3, name), reps)
+            t4 = tb.copy()
+            same(t4, reps)
+            del t4
+            getattr(t3, name).keep_rows(np.ones(reps * n, dtype=bool))
+            same(getattr(t3, name), reps)
+        return
+    # ---- many sets
+    K = case["nsets"]
+    spec = dict(L=2.0, nodes=[[1, 0.0, -1, -1, ""]] * 6 + [[0, 1.0, -1, -1, ""], [0, 2.0, -1, -1, ""], [0, 3.0, -1, -1, ""]],
+                edges=[[0.0, 2.0, 6, 0, ""], [0.0, 2.0, 6, 1, ""], [0.0, 2.0, 7, 2, ""], [0.0, 2.0, 7, 3, ""],
+                       [0.0, 1.0, 8, 4, ""], [0.0, 2.0, 8, 5, ""], [0.0, 2.0, 8, 6, ""], [0.0, 2.0, 8, 7, ""]],
+                sites=[[0.5, "A", ""]], mutations=[[0, 6, "T", -1, None, ""]], individuals=[], populations=[],
+                migrations=[])
+    ts = gen.build_tables(spec, tskit).tree_sequence()
+    # non-empty sets sit at the far end of the list
+    where = {K - 1: [0, 2], K - 2: [1, 4], K // 2 + 1: [3], 0: [5]}
+    sets = [where.get(j, []) for j in range(K)]
+    small_idx = sorted(where)
+    small = [where[j] for j in small_idx]
+    focal = [0, 1, 2, 3, 4, 5]
+    try:
+        if case["op"] == "gnn":
+            big = ts.genealogical_nearest_neighbours(focal, sets)
+            ref = ts.genealogical_nearest_neighbours(focal, small)
+        elif case["op"] == "mean_descendants":
+            big = ts.mean_descendants(sets)
+            ref = ts.mean_descendants(small)
+        else:
+            one = [s if len(s) > 1 else [4, 5] for s in sets]
+            big = ts.diversity(one, mode="branch")
+            ref = ts.diversity([one[j] for j in small_idx] + [[4, 5]], mode="branch")
+            ctx.close(big[small_idx], ref[:-1], "many_sets.diversity")
+            ctx.close(np.delete(big, small_idx), np.full(K - len(small_idx), ref[-1]), "many_sets.diversity_filler")
+            ctx.label("returned")
+            return
+    except (tskit.LibraryError, ValueError, MemoryError) as e:
+        ctx.label("rejected")
+        ctx.notes["rejected:" + type(e).__name__] = 1
+        return
+    ctx.label("returned")
+    ctx.check(big.shape == (ref.shape[0], K), "many_sets.shape", f"{big.shape}")
+    ctx.close(big[:, small_idx], ref, "many_sets." + case["op"])
+    rest = np.delete(big, small_idx, axis=1)
+    ctx.check(bool((rest == 0).all()), "many_sets.empty_set_columns", "a column of an empty reference set is not zero")
+
+
 SUBCHECKS = [
     SubCheck("C09.ts_programs", run_program, strategy=ts_program, quick=3200, thorough=300000, flavour="asan",
              rule="every program reaches C code with generated (35% boundary) arguments; distinct by program text"),
@@ -934,4 +1061,6 @@ SUBCHECKS = [
              rule="idem on arbitrary (possibly invalid / unsorted / unindexed) table collections"),
     SubCheck("C09.boundary_ids", run_boundary, strategy=boundary_case, quick=320, thorough=8000, flavour="asan",
              rule="tree sequence with >=1 edge; every listed API point is called with id == row count"),
+    SubCheck("C09.big_sizes", run_big, enumerate=enum_big, quick=1, thorough=1, flavour="asan", shards=8, hang_s=900,
+             rule="calls with 32767..70000 reference / sample sets; one table call that grows a table by 2.2 million rows"),
 ]
